@@ -50,52 +50,81 @@ fn oracle(w: &Workload, obs: &mut Obs) -> Result<(), Violation> {
     let nlocks = w.locks.max(1) as usize;
     let locks: Arc<Vec<StdLock<Guarded>>> = Arc::new((0..nlocks).map(|_| StdLock::new(Guarded::default())).collect());
     let barrier = Arc::new(std::sync::Barrier::new(w.threads.len()));
-    let mut handles = Vec::new();
+    let (tx, rx) = std::sync::mpsc::channel::<(usize, Result<(), String>)>();
     for (ti, ops) in w.threads.iter().enumerate() {
         let locks = locks.clone();
         let ops = ops.clone();
         let barrier = barrier.clone();
-        handles.push(std::thread::spawn(move || -> Result<(), String> {
-            barrier.wait();
-            for (oi, op) in ops.iter().enumerate() {
-                let li = op.lock as usize % locks.len();
-                // non-atomic read-modify-write with a widened race window
-                let returned = locks[li].apply(|g| {
-                    let seen = g.counter;
-                    delay(&op.delay);
-                    if op.nested && li + 1 < locks.len() {
-                        // non-reentrant nested use in a fixed global order
-                        locks[li + 1].apply(|h| {
-                            let s = h.counter;
-                            h.counter = s + 1;
-                            h.log.push((ti, oi, s));
-                            h.last_writer = (ti, oi);
-                        });
+        let tx = tx.clone();
+        std::thread::spawn(move || {
+            let body = std::panic::catch_unwind(std::panic::AssertUnwindSafe(|| -> Result<(), String> {
+                barrier.wait();
+                for (oi, op) in ops.iter().enumerate() {
+                    let li = op.lock as usize % locks.len();
+                    // non-atomic read-modify-write with a widened race window
+                    let returned = locks[li].apply(|g| {
+                        let seen = g.counter;
+                        delay(&op.delay);
+                        if op.nested && li + 1 < locks.len() {
+                            // non-reentrant nested use in a fixed global order
+                            locks[li + 1].apply(|h| {
+                                let s = h.counter;
+                                h.counter = s + 1;
+                                h.log.push((ti, oi, s));
+                                h.last_writer = (ti, oi);
+                            });
+                        }
+                        g.counter = seen + 1;
+                        g.last_writer = (ti, oi);
+                        g.log.push((ti, oi, seen));
+                        (seen, ti, oi)
+                    });
+                    // every call returns its closure's value
+                    if returned.1 != ti || returned.2 != oi {
+                        return Err(format!("thread {ti} op {oi}: apply returned another closure's value {returned:?}"));
                     }
-                    g.counter = seen + 1;
-                    g.last_writer = (ti, oi);
-                    g.log.push((ti, oi, seen));
-                    (seen, ti, oi)
-                });
-                // every call returns its closure's value
-                if returned.1 != ti || returned.2 != oi {
-                    return Err(format!("thread {ti} op {oi}: apply returned another closure's value {returned:?}"));
                 }
-            }
-            Ok(())
-        }));
+                Ok(())
+            }));
+            let r = match body {
+                Ok(r) => r,
+                Err(p) => {
+                    let msg = p.downcast_ref::<String>().cloned().or_else(|| p.downcast_ref::<&str>().map(|s| s.to_string())).unwrap_or_default();
+                    Err(format!("thread {ti} panicked: {msg}"))
+                }
+            };
+            let _ = tx.send((ti, r));
+        });
     }
+    drop(tx);
+    // All threads report back. While no call has failed the wait is unbounded (a hang is the watchdog's business and is
+    // reported as inconclusive); once a call *has* failed the violation is certain, and threads that the failure left
+    // parked are given a few seconds and then abandoned instead of turning the run into a hang.
     let mut thread_errors = Vec::new();
-    for (ti, h) in handles.into_iter().enumerate() {
-        match h.join() {
-            Ok(Ok(())) => {}
-            Ok(Err(e)) => thread_errors.push(e),
-            Err(p) => {
-                let msg = p.downcast_ref::<String>().cloned().or_else(|| p.downcast_ref::<&str>().map(|s| s.to_string())).unwrap_or_default();
-                thread_errors.push(format!("thread {ti} panicked: {msg}"));
+    let mut done = 0usize;
+    let mut first_error_at: Option<std::time::Instant> = None;
+    while done < w.threads.len() {
+        let got = match first_error_at {
+            None => rx.recv().ok(),
+            Some(t0) => match rx.recv_timeout(std::time::Duration::from_secs(2).saturating_sub(t0.elapsed())) {
+                Ok(x) => Some(x),
+                Err(_) => None,
+            },
+        };
+        match got {
+            Some((_, Ok(()))) => done += 1,
+            Some((_, Err(e))) => {
+                done += 1;
+                thread_errors.push(e);
+                first_error_at.get_or_insert_with(std::time::Instant::now);
+            }
+            None => {
+                thread_errors.push(format!("{} thread(s) never returned after that failure", w.threads.len() - done));
+                break;
             }
         }
     }
+    thread_errors.sort();
     ensure!(thread_errors.is_empty(), "lock:call-failed", "{}", thread_errors.join("; "));
     // history invariants
     let mut expected = vec![0u64; nlocks];
